@@ -93,7 +93,7 @@ func c17Shard(src, dst MapSpec, shift int, tier string) mc.Shard {
 		m2 = dspec.New()
 		a1, a2 := m1.RelativeAccuracy(), m2.RelativeAccuracy()
 		g1, _ := mapParams(m1)
-		g2, _ := mapParams(m2)
+		g2, o2 := mapParams(m2)
 		_ = g1
 		scales := []float64{1e-3, 0.1, 0.5, 1, 2, 10, 1e3}
 		// bin-aligned scales: powers of the bases actually in play
@@ -133,134 +133,151 @@ func c17Shard(src, dst MapSpec, shift int, tier string) mc.Shard {
 						for _, b := range srcBins {
 							W += b.w
 						}
+						// a sparse source is walked in map order: every explored order is a separate
+						// conversion (the default answer is ascending keys)
+						orders := []mapOrder{{name: "ascending"}}
+						if sk.K == 'S' && mc.MapOrderControlled {
+							orders = append(orders, mapOrders...)
+						}
 						for _, scale := range scales {
-							res.Evaluations++
-							out := srcSl.ChangeMapping(m2, tk, scale)
-							q := out.Q()
-							where := fmt.Sprintf("%s (%s store, exact=%v, source %s %v) -> %s (%s store), scale %v: ", src, sk, exact, s.name, s.ent, dspec, tk, scale)
-							if after := ObserveSketch(srcSl.Q()); after != before {
-								fail("C17.source-untouched", where+"the source changed\n  before: %s\n  after:  %s", before, after)
-							}
-							if !out.Mapping().Equals(m2) {
-								fail("C17.carries-mapping", where+"the result does not carry the requested mapping")
-							}
-							if q.GetZeroCount() != srcSl.Q().GetZeroCount() {
-								fail("C17.zero-weight", where+"zero weight %v became %v", srcSl.Q().GetZeroCount(), q.GetZeroCount())
-							}
-							outBins := sketchBins(q)
-							var W2 float64
-							neg := false
-							for _, b := range outBins {
-								W2 += b.w
-							}
-							for _, st := range []interface {
-								ForEach(func(int, float64) bool)
-							}{q.GetPositiveValueStore(), q.GetNegativeValueStore()} {
-								st.ForEach(func(i int, c float64) bool {
-									if c < 0 {
-										neg = true
-										fail("C17.no-negative-bin", where+"bin %d of the result has the negative weight %v", i, c)
-									}
-									return false
-								})
-							}
-							_ = neg
-							if math.Abs(W2-W) > 1e-12*W {
-								fail("C17.weight-conserved", where+"total weight %v became %v", W, W2)
-							}
-							if !exact && math.Abs(q.GetCount()-W) > 1e-12*W {
-								fail("C17.weight-conserved", where+"count %v became %v", W, q.GetCount())
-							}
-							distinct[fmt.Sprintf("%v|%v|%d|%v", s.name, scale, len(outBins), sk)] = struct{}{}
-							// overlap: single-bin sources send weight only to overlapping target bins
-							if z, _ := zeroClass(m1, firstValue(s.ent)); len(s.ent) == 1 && !z {
-								v := math.Abs(s.ent[0].V)
-								i := m1.Index(v)
-								inLo, inHi := m1.LowerBound(i)*scale, m1.LowerBound(i+1)*scale
+							for _, ord := range orders {
+								res.Evaluations++
+								SetMapOrder(ord.perm)
+								out := srcSl.ChangeMapping(m2, tk, scale)
+								SetMapOrder(nil)
+								q := out.Q()
+								where := fmt.Sprintf("%s (%s store, exact=%v, source %s %v) -> %s (%s store), scale %v: ", src, sk, exact, s.name, s.ent, dspec, tk, scale)
+								if ord.perm != nil {
+									where = "[map order " + ord.name + "] " + where
+								}
+								// the requested mapping, judged on its parameters (not through Equals)
+								if rg, ro := mapParams(out.Mapping()); wireMapKind(out.Mapping()) != wireMapKind(m2) || math.Abs(rg-g2) > 1e-9*g2 || math.Abs(ro-o2) > 1e-9*math.Max(1, math.Abs(o2)) {
+									fail("C17.carries-mapping", where+"the result carries the mapping %v, requested %v", out.Mapping().ToProto(), m2.ToProto())
+								}
+								if after := ObserveSketch(srcSl.Q()); after != before {
+									fail("C17.source-untouched", where+"the source changed\n  before: %s\n  after:  %s", before, after)
+								}
+								if !out.Mapping().Equals(m2) {
+									fail("C17.carries-mapping", where+"the result does not carry the requested mapping")
+								}
+								if q.GetZeroCount() != srcSl.Q().GetZeroCount() {
+									fail("C17.zero-weight", where+"zero weight %v became %v", srcSl.Q().GetZeroCount(), q.GetZeroCount())
+								}
+								outBins := sketchBins(q)
+								var W2 float64
+								neg := false
 								for _, b := range outBins {
-									if b.w <= 1e-9*W {
-										continue
-									}
-									j := m2.Index(math.Abs(b.v))
-									oLo, oHi := m2.LowerBound(j), m2.LowerBound(j+1)
-									if oHi < inLo*(1-1e-12) || oLo > inHi*(1+1e-12) {
-										fail("C17.overlap", where+"target bin %d [%v,%v) received weight %v but does not overlap the scaled source bin [%v,%v)", j, oLo, oHi, b.w, inLo, inHi)
-									}
+									W2 += b.w
 								}
-							}
-							// quantiles: composed accuracy bound at a rank at most one unit of weight away
-							if scale == 1 && m1.Equals(m2) {
-								if a, b := SketchContent(q), SketchContent(srcSl.Q()); a != b {
-									fail("C17.identity-is-copy", where+"equal mapping and scale 1 did not give an exact copy\n  got:  %s\n  want: %s", a, b)
-								}
-							}
-							cnt := q.GetCount()
-							if cnt == 0 {
-								if W != 0 {
-									fail("C17.weight-conserved", where+"the result is empty")
-								}
-								continue
-							}
-							for _, p := range []float64{0, 0.1, 0.25, 0.5, 0.75, 0.9, 1} {
-								y, err := q.GetValueAtQuantile(p)
-								if err != nil {
-									fail("C17.quantile", where+"q=%v refused: %v", p, err)
-									break
-								}
-								r := p * (cnt - 1)
-								ok := false
-								var c float64
-								for _, b := range srcBins {
-									a0, b0 := c, c+b.w
-									c = b0
-									d := 0.0
-									if r < a0 {
-										d = a0 - r
-									} else if r > b0 {
-										d = r - b0
-									}
-									if d > 1+1e-9*W {
-										continue
-									}
-									x := b.v * scale
-									if x == 0 {
-										if y == 0 {
-											ok = true
+								for _, st := range []interface {
+									ForEach(func(int, float64) bool)
+								}{q.GetPositiveValueStore(), q.GetNegativeValueStore()} {
+									st.ForEach(func(i int, c float64) bool {
+										if c < 0 {
+											neg = true
+											fail("C17.no-negative-bin", where+"bin %d of the result has the negative weight %v", i, c)
 										}
-										continue
+										return false
+									})
+								}
+								_ = neg
+								if math.Abs(W2-W) > 1e-12*W {
+									fail("C17.weight-conserved", where+"total weight %v became %v", W, W2)
+								}
+								if !exact && math.Abs(q.GetCount()-W) > 1e-12*W {
+									fail("C17.weight-conserved", where+"count %v became %v", W, q.GetCount())
+								}
+								distinct[fmt.Sprintf("%v|%v|%d|%v", s.name, scale, len(outBins), sk)] = struct{}{}
+								// overlap: single-bin sources send weight only to overlapping target bins
+								if z, _ := zeroClass(m1, firstValue(s.ent)); len(s.ent) == 1 && !z {
+									v := math.Abs(s.ent[0].V)
+									i := m1.Index(v)
+									inLo, inHi := m1.LowerBound(i)*scale, m1.LowerBound(i+1)*scale
+									for _, b := range outBins {
+										if b.w <= 1e-9*W {
+											continue
+										}
+										j := m2.Index(math.Abs(b.v))
+										oLo, oHi := m2.LowerBound(j), m2.LowerBound(j+1)
+										if oHi < inLo*(1-1e-12) || oLo > inHi*(1+1e-12) {
+											fail("C17.overlap", where+"target bin %d [%v,%v) received weight %v but does not overlap the scaled source bin [%v,%v)", j, oLo, oHi, b.w, inLo, inHi)
+										}
 									}
-									ratio := y / x
-									if ratio >= lo*(1-1e-9) && ratio <= hi*(1+1e-9) {
-										ok = true
+								}
+								// quantiles: composed accuracy bound at a rank at most one unit of weight away
+								if scale == 1 && m1.Equals(m2) {
+									if a, b := SketchContent(q), SketchContent(srcSl.Q()); a != b {
+										fail("C17.identity-is-copy", where+"equal mapping and scale 1 did not give an exact copy\n  got:  %s\n  want: %s", a, b)
+									}
+								}
+								cnt := q.GetCount()
+								if cnt == 0 {
+									if W != 0 {
+										fail("C17.weight-conserved", where+"the result is empty")
+									}
+									continue
+								}
+								for _, p := range []float64{0, 0.1, 0.25, 0.5, 0.75, 0.9, 1} {
+									y, err := q.GetValueAtQuantile(p)
+									if err != nil {
+										fail("C17.quantile", where+"q=%v refused: %v", p, err)
+										break
+									}
+									r := p * (cnt - 1)
+									ok := false
+									var c float64
+									for _, b := range srcBins {
+										a0, b0 := c, c+b.w
+										c = b0
+										d := 0.0
+										if r < a0 {
+											d = a0 - r
+										} else if r > b0 {
+											d = r - b0
+										}
+										if d > 1+1e-9*W {
+											continue
+										}
+										x := b.v * scale
+										if x == 0 {
+											if y == 0 {
+												ok = true
+											}
+											continue
+										}
+										ratio := y / x
+										if ratio >= lo*(1-1e-9) && ratio <= hi*(1+1e-9) {
+											ok = true
+											break
+										}
+									}
+									if !ok {
+										fail("C17.quantile", where+"q=%v answered %v, which is not within the combined accuracy [%v, %v] of any scaled source quantile at a rank within one unit of weight (source bins %v)", p, y, lo, hi, srcBins)
 										break
 									}
 								}
-								if !ok {
-									fail("C17.quantile", where+"q=%v answered %v, which is not within the combined accuracy [%v, %v] of any scaled source quantile at a rank within one unit of weight (source bins %v)", p, y, lo, hi, srcBins)
-									break
+								if exact && W > 0 {
+									es, eo := srcSl.E, out.E
+									if eo.GetCount() != es.GetCount() {
+										fail("C17.statistics-rescaled", where+"exact count %v became %v", es.GetCount(), eo.GetCount())
+									}
+									smin, _ := es.GetMinValue()
+									smax, _ := es.GetMaxValue()
+									omin, _ := eo.GetMinValue()
+									omax, _ := eo.GetMaxValue()
+									if omin != smin*scale || omax != smax*scale {
+										fail("C17.statistics-rescaled", where+"exact min/max %v/%v became %v/%v", smin, smax, omin, omax)
+									}
+									if d := math.Abs(eo.GetSum() - es.GetSum()*scale); d > 4*math.Ldexp(1, -52)*math.Abs(es.GetSum()*scale) {
+										fail("C17.statistics-rescaled", where+"exact sum %v became %v", es.GetSum(), eo.GetSum())
+									}
 								}
-							}
-							if exact && W > 0 {
-								es, eo := srcSl.E, out.E
-								if eo.GetCount() != es.GetCount() {
-									fail("C17.statistics-rescaled", where+"exact count %v became %v", es.GetCount(), eo.GetCount())
+								// the result is a sketch of its own: mutating it leaves the source untouched
+								out.Q().Add(3 * scale)
+								out.Q().AddWithCount(0, 2)
+								if after := ObserveSketch(srcSl.Q()); after != before {
+									fail("C17.source-untouched", where+"adding to the result changed the source\n  before: %s\n  after:  %s", before, after)
 								}
-								smin, _ := es.GetMinValue()
-								smax, _ := es.GetMaxValue()
-								omin, _ := eo.GetMinValue()
-								omax, _ := eo.GetMaxValue()
-								if omin != smin*scale || omax != smax*scale {
-									fail("C17.statistics-rescaled", where+"exact min/max %v/%v became %v/%v", smin, smax, omin, omax)
-								}
-								if d := math.Abs(eo.GetSum() - es.GetSum()*scale); d > 4*math.Ldexp(1, -52)*math.Abs(es.GetSum()*scale) {
-									fail("C17.statistics-rescaled", where+"exact sum %v became %v", es.GetSum(), eo.GetSum())
-								}
-							}
-							// the result is a sketch of its own: mutating it leaves the source untouched
-							out.Q().Add(3 * scale)
-							out.Q().AddWithCount(0, 2)
-							if after := ObserveSketch(srcSl.Q()); after != before {
-								fail("C17.source-untouched", where+"adding to the result changed the source\n  before: %s\n  after:  %s", before, after)
 							}
 						}
 					}
